@@ -471,3 +471,298 @@ Proof.
     + intros [l [ps [p [Hu [Hp Hk]]]]]. right. exists p. split. exact Hk.
       apply in_flat_map. exists (l, ps). split. apply in_answers. exact Hu. apply in_nonnil. exact Hp.
 Qed.
+
+(* ------------------------------------------------------------------ GetNSQDStats: the keyed channel map *)
+(* every (producer, topic name, channel) occurrence the loops visit, in order *)
+Definition centry : Type := pinfo * bytes * chan.
+Definition topic_entries (p : pinfo) (sel : bytes) (t : topic) : list centry :=
+  if sel_skips sel (tp_name t) then [] else map (fun c => (p, tp_name t, c)) (nonnil (tp_chans t)).
+Definition all_entries (ups : list (pinfo * fetch (list (option topic)))) (sel : bytes) : list centry :=
+  flat_map (fun u : pinfo * list (option topic) => flat_map (topic_entries (fst u) sel) (nonnil (snd u))) (answers ups).
+Definition entry_step (sel : bytes) (cm : list (bytes * cagg)) (e : centry) : list (bytes * cagg) :=
+  proc_chan (fst (fst e)) sel (snd (fst e)) cm (snd e).
+Definition ekey (sel : bytes) (e : centry) : bytes := chan_key sel (snd (fst e)) (ch_name (snd e)).
+
+(* the per-node topic entries of the result *)
+Definition topic_nodes (p : pinfo) (sel : bytes) (t : topic) : list tnode :=
+  if sel_skips sel (tp_name t) then []
+  else [mkTN (p_addr p) (p_hostname p) (tp_name t) (topic_num t) (tp_paused t) (tp_chans t)].
+Definition all_topic_nodes (ups : list (pinfo * fetch (list (option topic)))) (sel : bytes) : list tnode :=
+  flat_map (fun u : pinfo * list (option topic) => flat_map (topic_nodes (fst u) sel) (nonnil (snd u))) (answers ups).
+
+Definition stats_value (ups : list (pinfo * fetch (list (option topic)))) (sel : bytes) : stats_state :=
+  fold_left (fun st u => fold_left (proc_topic (fst u) sel) (nonnil (snd u)) st) (answers ups) ([], []).
+
+Lemma proc_topic_fold : forall p sel ts st,
+  fold_left (proc_topic p sel) ts st =
+  (fst st ++ flat_map (topic_nodes p sel) ts, fold_left (entry_step sel) (flat_map (topic_entries p sel) ts) (snd st)).
+Proof.
+  intros p sel. induction ts as [|t ts IH]; intro st; simpl.
+  - rewrite app_nil_r. destruct st; reflexivity.
+  - rewrite IH. unfold proc_topic, topic_nodes, topic_entries. destruct (sel_skips sel (tp_name t)); simpl.
+    + reflexivity.
+    + rewrite fold_left_app. rewrite <- app_assoc. simpl. f_equal. f_equal.
+      rewrite <- (fold_left_map _ _ _ (entry_step sel) (fun c => (p, tp_name t, c))). reflexivity.
+Qed.
+
+Lemma stats_fold : forall us sel st,
+  fold_left (fun st (u : pinfo * list (option topic)) => fold_left (proc_topic (fst u) sel) (nonnil (snd u)) st) us st =
+  (fst st ++ flat_map (fun u => flat_map (topic_nodes (fst u) sel) (nonnil (snd u))) us,
+   fold_left (entry_step sel) (flat_map (fun u => flat_map (topic_entries (fst u) sel) (nonnil (snd u))) us) (snd st)).
+Proof.
+  induction us as [|u us IH]; intros sel st; simpl.
+  - rewrite app_nil_r. destruct st; reflexivity.
+  - rewrite IH. rewrite proc_topic_fold. simpl. rewrite fold_left_app. rewrite <- app_assoc. reflexivity.
+Qed.
+
+Theorem stats_value_spec : forall ups sel,
+  stats_value ups sel = (all_topic_nodes ups sel, fold_left (entry_step sel) (all_entries ups sel) []).
+Proof. intros ups sel. unfold stats_value. rewrite stats_fold. reflexivity. Qed.
+
+(* looking one key up after an update / after the whole run *)
+Lemma find_update : forall key mk f m k,
+  cmap_find k (cmap_update key mk f m) =
+  if bytes_eqb key k then Some (f (match cmap_find key m with Some v => v | None => mk tt end)) else cmap_find k m.
+Proof.
+  intros key mk f. induction m as [|[k' v'] m IH]; intro k; simpl.
+  - destruct (bytes_eqb key k) eqn:E; reflexivity.
+  - destruct (bytes_eqb k' key) eqn:E1; simpl.
+    + apply beq_eq in E1. subst k'. destruct (bytes_eqb key k) eqn:E2; reflexivity.
+    + rewrite IH. destruct (bytes_eqb k' k) eqn:E3.
+      * apply beq_eq in E3. subst k'.
+        destruct (bytes_eqb key k) eqn:E4; [|reflexivity].
+        apply beq_eq in E4. subst. rewrite beq_refl in E1. discriminate.
+      * reflexivity.
+Qed.
+
+Definition new_agg (e : centry) : cagg := mkCA (p_addr (fst (fst e))) (snd (fst e)) (ch_name (snd e)) cn_zero false [] [].
+Definition eadd (ov : option cagg) (e : centry) : option cagg :=
+  Some (cagg_add (match ov with Some v => v | None => new_agg e end) (p_addr (fst (fst e))) (p_hostname (fst (fst e))) (snd e)).
+
+Lemma find_fold : forall sel es m k,
+  cmap_find k (fold_left (entry_step sel) es m) =
+  fold_left eadd (filter (fun e => bytes_eqb (ekey sel e) k) es) (cmap_find k m).
+Proof.
+  intros sel. induction es as [|e es IH]; intros m k; simpl. reflexivity.
+  rewrite IH.
+  assert (cmap_find k (entry_step sel m e) = if bytes_eqb (ekey sel e) k then eadd (cmap_find (ekey sel e) m) e else cmap_find k m) as Hs.
+  { unfold entry_step, proc_chan. rewrite find_update. reflexivity. }
+  rewrite Hs. destruct (bytes_eqb (ekey sel e) k) eqn:E; simpl.
+  - apply beq_eq in E. subst k. reflexivity.
+  - reflexivity.
+Qed.
+
+(* what accumulates under one key *)
+Definition agg_from (v0 : cagg) (es : list centry) : cagg :=
+  fold_left (fun v e => cagg_add v (p_addr (fst (fst e))) (p_hostname (fst (fst e))) (snd e)) es v0.
+Lemma eadd_fold_some : forall es v0, fold_left eadd es (Some v0) = Some (agg_from v0 es).
+Proof. induction es as [|e es IH]; intro v0; simpl. reflexivity. apply IH. Qed.
+
+Lemma agg_from_num : forall es v0, ca_num (agg_from v0 es) = fold_left cn_add (map (fun e => chan_num (snd e)) es) (ca_num v0).
+Proof. induction es as [|e es IH]; intro v0; simpl. reflexivity. rewrite IH. reflexivity. Qed.
+Lemma agg_from_paused : forall es v0, ca_paused (agg_from v0 es) = ca_paused v0 || existsb (fun e => ch_paused (snd e)) es.
+Proof.
+  induction es as [|e es IH]; intro v0; simpl. rewrite orb_false_r. reflexivity.
+  rewrite IH. simpl. rewrite orb_assoc. reflexivity.
+Qed.
+Lemma agg_from_nodes : forall es v0,
+  ca_nodes (agg_from v0 es) = ca_nodes v0 ++ map (fun e => (p_addr (fst (fst e)), p_hostname (fst (fst e)), chan_num (snd e))) es.
+Proof.
+  induction es as [|e es IH]; intro v0; simpl. rewrite app_nil_r. reflexivity.
+  rewrite IH. simpl. rewrite <- app_assoc. reflexivity.
+Qed.
+Lemma agg_from_clients : forall es v0,
+  ca_clients (agg_from v0 es) =
+  ca_clients v0 ++ flat_map (fun e => map (fun cl => (p_addr (fst (fst e)), cl)) (nonnil (ch_clients (snd e)))) es.
+Proof.
+  induction es as [|e es IH]; intro v0; simpl. rewrite app_nil_r. reflexivity.
+  rewrite IH. simpl. rewrite <- app_assoc. reflexivity.
+Qed.
+Lemma agg_from_names : forall es v0, ca_topic (agg_from v0 es) = ca_topic v0 /\ ca_name (agg_from v0 es) = ca_name v0.
+Proof. induction es as [|e es IH]; intro v0; simpl. auto. destruct (IH (cagg_add v0 (p_addr (fst (fst e))) (p_hostname (fst (fst e))) (snd e))) as [H1 H2]. rewrite H1, H2. auto. Qed.
+
+(* C18: for ANY upstreams and contents, the channel aggregated under a key carries, in each
+   of its 13 counters, the (int64) sum over all node entries with that key; paused = some
+   node is paused; its node list and client list are exactly those entries' *)
+Theorem channel_sums : forall ups sel k,
+  let es := filter (fun e => bytes_eqb (ekey sel e) k) (all_entries ups sel) in
+  match cmap_find k (snd (stats_value ups sel)) with
+  | None => es = []
+  | Some v =>
+      es <> [] /\
+      (forall f, In f cfields -> f (ca_num v) = w64 (sumZ (map (fun e => f (chan_num (snd e))) es))) /\
+      ca_paused v = existsb (fun e => ch_paused (snd e)) es /\
+      ca_nodes v = map (fun e => (p_addr (fst (fst e)), p_hostname (fst (fst e)), chan_num (snd e))) es /\
+      ca_clients v = flat_map (fun e => map (fun cl => (p_addr (fst (fst e)), cl)) (nonnil (ch_clients (snd e)))) es
+  end.
+Proof.
+  intros ups sel k. cbv zeta. rewrite stats_value_spec. simpl snd. rewrite find_fold. simpl cmap_find.
+  destruct (filter (fun e => bytes_eqb (ekey sel e) k) (all_entries ups sel)) as [|e es] eqn:Ef.
+  - reflexivity.
+  - simpl fold_left. unfold eadd at 2. rewrite eadd_fold_some.
+    change (cagg_add (new_agg e) (p_addr (fst (fst e))) (p_hostname (fst (fst e))) (snd e)) with (agg_from (new_agg e) [e]).
+    assert (forall v0 a b, agg_from (agg_from v0 a) b = agg_from v0 (a ++ b)) as Happ.
+    { intros v0 a b. unfold agg_from. rewrite fold_left_app. reflexivity. }
+    rewrite Happ. simpl app. split; [discriminate|]. split; [|split; [|split]].
+    + intros f Hf. rewrite agg_from_num. rewrite (cn_fold_field f Hf).
+      * simpl ca_num. rewrite (cfield_zero f Hf). simpl. rewrite map_map. reflexivity.
+      * simpl ca_num. rewrite (cfield_zero f Hf). reflexivity.
+    + rewrite agg_from_paused. reflexivity.
+    + rewrite agg_from_nodes. reflexivity.
+    + rewrite agg_from_clients. reflexivity.
+Qed.
+
+(* the topic entries of the result: one per (answering producer, non-null topic not filtered out) *)
+Theorem stats_topic_nodes : forall ups sel, fst (stats_value ups sel) = all_topic_nodes ups sel.
+Proof. intros ups sel. rewrite stats_value_spec. reflexivity. Qed.
+
+(* ------------------------------------------------------------------ TopicStats.Add over the nodes *)
+Definition tagg_of (nodes : list tnode) : tagg := fold_left tagg_add nodes tagg_zero.
+
+Lemma tagg_fold_num : forall nodes t, ta_num (fold_left tagg_add nodes t) = fold_left tn_add (map tn_num nodes) (ta_num t).
+Proof. induction nodes as [|a nodes IH]; intro t; simpl. reflexivity. rewrite IH. reflexivity. Qed.
+Lemma tagg_fold_paused : forall nodes t, ta_paused (fold_left tagg_add nodes t) = ta_paused t || existsb tn_paused nodes.
+Proof.
+  induction nodes as [|a nodes IH]; intro t; simpl. rewrite orb_false_r. reflexivity.
+  rewrite IH. simpl. rewrite orb_assoc. reflexivity.
+Qed.
+Lemma tagg_fold_nodes : forall nodes t,
+  ta_nodes (fold_left tagg_add nodes t) = ta_nodes t ++ map (fun a => (tn_node a, tn_host a)) nodes.
+Proof.
+  induction nodes as [|a nodes IH]; intro t; simpl. rewrite app_nil_r. reflexivity.
+  rewrite IH. simpl. rewrite <- app_assoc. reflexivity.
+Qed.
+Lemma tagg_fold_chans : forall nodes t,
+  ta_chans (fold_left tagg_add nodes t) = fold_left merge_chan (flat_map (fun a => nonnil (tn_chans a)) nodes) (ta_chans t).
+Proof.
+  induction nodes as [|a nodes IH]; intro t; simpl. reflexivity.
+  rewrite IH. simpl. rewrite fold_left_app. reflexivity.
+Qed.
+
+Fixpoint cs_find (k : bytes) (cs : list chan_sum) : option chan_sum :=
+  match cs with
+  | [] => None
+  | s :: r => if bytes_eqb (cs_name s) k then Some s else cs_find k r
+  end.
+Lemma cs_find_exists : forall k cs, existsb (fun s => bytes_eqb (cs_name s) k) cs = match cs_find k cs with Some _ => true | None => false end.
+Proof. intros k. induction cs as [|s cs IH]; simpl. reflexivity. destruct (bytes_eqb (cs_name s) k); simpl. reflexivity. exact IH. Qed.
+Lemma cs_find_app_none : forall k a b, cs_find k a = None -> cs_find k (a ++ b) = cs_find k b.
+Proof. intros k. induction a as [|s a IH]; intros b H; simpl in *. reflexivity. destruct (bytes_eqb (cs_name s) k). discriminate. apply IH. exact H. Qed.
+Lemma cs_find_app_some : forall k a b s, cs_find k a = Some s -> cs_find k (a ++ b) = Some s.
+Proof. intros k. induction a as [|x a IH]; intros b s H; simpl in *. discriminate. destruct (bytes_eqb (cs_name x) k). exact H. apply IH. exact H. Qed.
+Lemma cs_find_map_other : forall k name g cs, bytes_eqb name k = false -> (forall s, cs_name (g s) = cs_name s) ->
+  cs_find k (map (fun s => if bytes_eqb (cs_name s) name then g s else s) cs) = cs_find k cs.
+Proof.
+  intros k name g cs Hne Hg. induction cs as [|s cs IH]; simpl. reflexivity.
+  destruct (bytes_eqb (cs_name s) name) eqn:E1.
+  - rewrite Hg. destruct (bytes_eqb (cs_name s) k) eqn:E2.
+    + apply beq_eq in E1. apply beq_eq in E2. subst. rewrite beq_refl in Hne. discriminate.
+    + exact IH.
+  - destruct (bytes_eqb (cs_name s) k). reflexivity. exact IH.
+Qed.
+Lemma cs_find_map_same : forall k g cs, (forall s, cs_name (g s) = cs_name s) ->
+  cs_find k (map (fun s => if bytes_eqb (cs_name s) k then g s else s) cs) =
+  match cs_find k cs with Some s => Some (g s) | None => None end.
+Proof.
+  intros k g cs Hg. induction cs as [|s cs IH]; simpl. reflexivity.
+  destruct (bytes_eqb (cs_name s) k) eqn:E1.
+  - rewrite Hg, E1. reflexivity.
+  - rewrite E1. exact IH.
+Qed.
+
+Definition cs_step (os : option chan_sum) (a : chan) : option chan_sum :=
+  Some (match os with Some s => cs_add s a | None => mkCS (ch_name a) (chan_num a) (ch_paused a) end).
+
+Lemma cs_find_merge : forall k cs a,
+  cs_find k (merge_chan cs a) = if bytes_eqb (ch_name a) k then cs_step (cs_find k cs) a else cs_find k cs.
+Proof.
+  intros k cs a. unfold merge_chan. rewrite cs_find_exists.
+  destruct (bytes_eqb (ch_name a) k) eqn:E.
+  - apply beq_eq in E. subst k. destruct (cs_find (ch_name a) cs) as [s|] eqn:Ef.
+    + rewrite (cs_find_map_same (ch_name a) (fun s => cs_add s a)) by reflexivity. rewrite Ef. reflexivity.
+    + rewrite cs_find_app_none by exact Ef. simpl. rewrite beq_refl. reflexivity.
+  - destruct (cs_find (ch_name a) cs) as [s|] eqn:Ef.
+    + apply (cs_find_map_other k (ch_name a) (fun s => cs_add s a)). exact E. reflexivity.
+    + destruct (cs_find k cs) as [s'|] eqn:Ek.
+      * apply cs_find_app_some. exact Ek.
+      * rewrite cs_find_app_none by exact Ek. simpl. rewrite E. reflexivity.
+Qed.
+
+Lemma cs_find_fold : forall k cs0 chans,
+  cs_find k (fold_left merge_chan chans cs0) =
+  fold_left cs_step (filter (fun a => bytes_eqb (ch_name a) k) chans) (cs_find k cs0).
+Proof.
+  intros k cs0 chans. revert cs0. induction chans as [|a chans IH]; intro cs0; simpl. reflexivity.
+  rewrite IH, cs_find_merge. destruct (bytes_eqb (ch_name a) k); reflexivity.
+Qed.
+
+Definition cs_from (s0 : chan_sum) (chans : list chan) : chan_sum := fold_left cs_add chans s0.
+Lemma cs_step_fold_some : forall chans s0, fold_left cs_step chans (Some s0) = Some (cs_from s0 chans).
+Proof. induction chans as [|a chans IH]; intro s0; simpl. reflexivity. apply IH. Qed.
+Lemma cs_from_num : forall chans s0, cs_num (cs_from s0 chans) = fold_left cn_add (map chan_num chans) (cs_num s0).
+Proof. induction chans as [|a chans IH]; intro s0; simpl. reflexivity. rewrite IH. reflexivity. Qed.
+Lemma cs_from_paused : forall chans s0, cs_paused (cs_from s0 chans) = cs_paused s0 || existsb ch_paused chans.
+Proof.
+  induction chans as [|a chans IH]; intro s0; simpl. rewrite orb_false_r. reflexivity.
+  rewrite IH. simpl. rewrite orb_assoc. reflexivity.
+Qed.
+
+(* values decoded from JSON into int64 fields are in range *)
+Definition chan_i64 (c : chan) : Prop :=
+  in_i64 (ch_depth c) /\ in_i64 (ch_backend c) /\ in_i64 (ch_inflight c) /\ in_i64 (ch_deferred c) /\
+  in_i64 (ch_requeue c) /\ in_i64 (ch_timeout c) /\ in_i64 (ch_msgs c) /\ in_i64 (ch_zone c) /\
+  in_i64 (ch_region c) /\ in_i64 (ch_global c) /\ in_i64 (ch_ccount c).
+
+Lemma chan_num_wrapped : forall f, In f cfields -> forall a, chan_i64 a -> f (chan_num a) = w64 (f (chan_num a)).
+Proof.
+  intros f H a Hr. unfold chan_i64 in Hr.
+  destruct Hr as [H1 [H2 [H3 [H4 [H5 [H6 [H7 [H8 [H9 [H10 H11]]]]]]]]]].
+  unfold cfields in H. simpl in H.
+  repeat (destruct H as [H|H]; [subst f; simpl; first [rewrite w64_idem; reflexivity | symmetry; apply w64_id; assumption]|]).
+  contradiction.
+Qed.
+
+(* C18, /api/topics/:topic: the 8 topic counters are the (int64) sums over the nodes, paused =
+   some node is paused, the node list is the nodes', and every channel of the aggregate carries
+   in each of its 13 counters the sum over the nodes that have it *)
+Theorem topic_sums : forall nodes,
+  let t := tagg_of nodes in
+  (forall f, In f tfields -> f (ta_num t) = w64 (sumZ (map (fun a => f (tn_num a)) nodes))) /\
+  ta_paused t = existsb tn_paused nodes /\
+  ta_nodes t = map (fun a => (tn_node a, tn_host a)) nodes.
+Proof.
+  intro nodes. cbv zeta. unfold tagg_of. split; [|split].
+  - intros f Hf. rewrite tagg_fold_num. rewrite (tn_fold_field f Hf).
+    + simpl ta_num. rewrite (tfield_zero f Hf). simpl. rewrite map_map. reflexivity.
+    + simpl ta_num. rewrite (tfield_zero f Hf). reflexivity.
+  - rewrite tagg_fold_paused. reflexivity.
+  - rewrite tagg_fold_nodes. reflexivity.
+Qed.
+
+Theorem topic_channel_sums : forall nodes k,
+  let cs := filter (fun a => bytes_eqb (ch_name a) k) (flat_map (fun a => nonnil (tn_chans a)) nodes) in
+  (forall a, In a cs -> chan_i64 a) ->
+  match cs_find k (ta_chans (tagg_of nodes)) with
+  | None => cs = []
+  | Some s =>
+      cs <> [] /\ cs_name s = k /\
+      (forall f, In f cfields -> f (cs_num s) = w64 (sumZ (map (fun a => f (chan_num a)) cs))) /\
+      cs_paused s = existsb ch_paused cs
+  end.
+Proof.
+  intros nodes k. cbv zeta. intro Hr. unfold tagg_of. rewrite tagg_fold_chans. rewrite cs_find_fold. simpl cs_find.
+  destruct (filter (fun a => bytes_eqb (ch_name a) k) (flat_map (fun a => nonnil (tn_chans a)) nodes)) as [|a cs] eqn:Ef.
+  - reflexivity.
+  - simpl fold_left. unfold cs_step at 2. rewrite cs_step_fold_some.
+    assert (bytes_eqb (ch_name a) k = true) as Hk.
+    { assert (In a (a :: cs)) as Hi by (left; reflexivity). rewrite <- Ef in Hi. apply filter_In in Hi. tauto. }
+    apply beq_eq in Hk.
+    split; [discriminate|]. split; [|split].
+    + assert (forall chans s0, cs_name (cs_from s0 chans) = cs_name s0) as Hn.
+      { induction chans as [|x chans IH]; intro s0; simpl. reflexivity. rewrite IH. reflexivity. }
+      rewrite Hn. simpl. exact Hk.
+    + intros f Hf. rewrite cs_from_num. rewrite (cn_fold_field f Hf).
+      * simpl cs_num. simpl. rewrite map_map. reflexivity.
+      * simpl cs_num. apply chan_num_wrapped. exact Hf. apply Hr. left. reflexivity.
+    + rewrite cs_from_paused. reflexivity.
+Qed.
